@@ -1779,17 +1779,17 @@ def Block.FiniteWeights : Block → Prop
   | _ => True
 
 /-- both stores are plain finite maps (the SPEC stratum) -/
-def Sketch.IsSpec (s : Sketch) : Prop := (∃ c, s.pos = .sp c) ∧ (∃ c, s.neg = .sp c)
+def Sketch.IsSparse (s : Sketch) : Prop := (∃ c, s.pos = .sp c) ∧ (∃ c, s.neg = .sp c)
 
 namespace Sketch
 open Wire
 
-theorem isSpec_spec (m : Option MapId) (cp cn : Content) (z : F64) :
-    ({ mapping := m, pos := .sp cp, neg := .sp cn, zero := z } : Sketch).IsSpec :=
+theorem isSparse_spec (m : Option MapId) (cp cn : Content) (z : F64) :
+    ({ mapping := m, pos := .sp cp, neg := .sp cn, zero := z } : Sketch).IsSparse :=
   ⟨⟨cp, rfl⟩, ⟨cn, rfl⟩⟩
 
-theorem mapResult_isSpec (s s' : Sketch) (sub g o : Nat) (hs : s.IsSpec)
-    (h : mapResult s sub g o = .ok s') : s'.IsSpec := by
+theorem mapResult_isSpec (s s' : Sketch) (sub g o : Nat) (hs : s.IsSparse)
+    (h : mapResult s sub g o = .ok s') : s'.IsSparse := by
   unfold mapResult at h
   split at h
   · simp at h
@@ -1800,10 +1800,10 @@ theorem mapResult_isSpec (s s' : Sketch) (sub g o : Nat) (hs : s.IsSpec)
       · simp at h
     · simp at h; subst h; exact hs
 
-theorem applyBlock_spec (s : Sketch) (aux : DecAux) (b : Block) (hs : s.IsSpec)
+theorem applyBlock_spec (s : Sketch) (aux : DecAux) (b : Block) (hs : s.IsSparse)
     (hb : b.FiniteWeights) :
     applyBlock s aux b ≠ none ∧
-      ∀ s' aux', applyBlock s aux b = some (.ok (s', aux')) → s'.IsSpec := by
+      ∀ s' aux', applyBlock s aux b = some (.ok (s', aux')) → s'.IsSparse := by
   obtain ⟨⟨cp, hp⟩, ⟨cn, hn⟩⟩ := hs
   cases b with
   | zeroCount x =>
@@ -1851,9 +1851,9 @@ theorem applyBlock_spec (s : Sketch) (aux : DecAux) (b : Block) (hs : s.IsSpec)
       rw [← h.1]; exact ⟨⟨cp, hp⟩, ⟨c', rfl⟩⟩
 
 theorem applyBlocks_spec (bs : List Block) (hb : ∀ b ∈ bs, b.FiniteWeights) (s : Sketch)
-    (aux : DecAux) (hs : s.IsSpec) :
+    (aux : DecAux) (hs : s.IsSparse) :
     applyBlocks s aux bs ≠ none ∧
-      ∀ s' aux', applyBlocks s aux bs = some (.ok (s', aux')) → s'.IsSpec := by
+      ∀ s' aux', applyBlocks s aux bs = some (.ok (s', aux')) → s'.IsSparse := by
   induction bs generalizing s aux with
   | nil =>
     refine ⟨by simp [applyBlocks], fun s' aux' h => ?_⟩
@@ -1878,7 +1878,7 @@ theorem applyBlocks_spec (bs : List Block) (hb : ∀ b ∈ bs, b.FiniteWeights) 
 theorem decodeLoop_cut_inside (pre : List Block) (hpre : ∀ b ∈ pre, b.WF)
     (hfin : ∀ b ∈ pre, b.FiniteWeights) (b : Block) (hb : b.WF) (hbf : b.FiniteWeights)
     (k : Nat) (h0 : 0 < k) (hk : k < (encBlock b).length) (n : Nat) (s : Sketch) (aux : DecAux)
-    (hs : s.IsSpec) :
+    (hs : s.IsSparse) :
     ∃ e, decodeLoop (n + 1 + pre.length) s aux (encBlocks pre ++ (encBlock b).take k)
       = some (.error e) := by
   rw [decodeLoop_encBlocks_append pre hpre]
@@ -2119,7 +2119,7 @@ theorem flagType_cases (f : Nat) : flagType f = Consts.flagTypePositiveStore ∨
 /-- on spec stores the decoder loop never panics and never runs out of fuel, on ANY input in which
     every readable varfloat is finite -/
 theorem decodeLoop_total_spec (fuel : Nat) (bytes : Bytes) (s : Sketch) (aux : DecAux)
-    (hl : bytes.length ≤ fuel) (hs : s.IsSpec) (hf : FiniteVarfloats bytes) :
+    (hl : bytes.length ≤ fuel) (hs : s.IsSparse) (hf : FiniteVarfloats bytes) :
     decodeLoop fuel s aux bytes ≠ none := by
   induction fuel generalizing bytes s aux with
   | zero =>
@@ -2132,7 +2132,7 @@ theorem decodeLoop_total_spec (fuel : Nat) (bytes : Bytes) (s : Sketch) (aux : D
       have hl' : bs.length ≤ n := by simpa using hl
       have hf' : FiniteVarfloats bs := hf.suffix (List.suffix_cons f bs)
       obtain ⟨⟨cp, hp⟩, ⟨cn, hn⟩⟩ := hs
-      have next : ∀ (s' : Sketch) (aux' : DecAux) (bs' : Bytes), s'.IsSpec → bs' <:+ bs →
+      have next : ∀ (s' : Sketch) (aux' : DecAux) (bs' : Bytes), s'.IsSparse → bs' <:+ bs →
           decodeLoop n s' aux' bs' ≠ none := fun s' aux' bs' h1 h2 =>
         ih bs' s' aux' (Nat.le_trans h2.length_le hl') h1 (hf'.suffix h2)
       rcases flagType_cases f with ht | ht | ht | ht
@@ -2324,7 +2324,7 @@ theorem applyBlocks_interp_empty (bs : List Block) (m : Option MapId) (s' : Sket
 
 theorem decodeAndMergeWith_cut_inside (pre : List Block) (hpre : ∀ b ∈ pre, b.WF)
     (hfin : ∀ b ∈ pre, b.FiniteWeights) (b : Block) (hb : b.WF) (hbf : b.FiniteWeights)
-    (k : Nat) (h0 : 0 < k) (hk : k < (encBlock b).length) (s : Sketch) (hs : s.IsSpec) :
+    (k : Nat) (h0 : 0 < k) (hk : k < (encBlock b).length) (s : Sketch) (hs : s.IsSparse) :
     ∃ e, decodeAndMergeWith s (encBlocks pre ++ (encBlock b).take k) = some (.error e) := by
   have hl := encBlocks_length_ge pre
   have hlen : (encBlocks pre ++ (encBlock b).take k).length = (encBlocks pre).length + k := by
@@ -2336,7 +2336,7 @@ theorem decodeAndMergeWith_cut_inside (pre : List Block) (hpre : ∀ b ∈ pre, 
   congr 1
   omega
 
-theorem decodeAndMergeWith_total_spec (s : Sketch) (hs : s.IsSpec) (bytes : Bytes)
+theorem decodeAndMergeWith_total_spec (s : Sketch) (hs : s.IsSparse) (bytes : Bytes)
     (hf : FiniteVarfloats bytes) : decodeAndMergeWith s bytes ≠ none := by
   have := decodeLoop_total_spec (bytes.length + 1) bytes s { stats := none } (by omega) hs hf
   unfold decodeAndMergeWith
@@ -2350,7 +2350,7 @@ theorem decodeAndMergeWith_total_spec (s : Sketch) (hs : s.IsSpec) (bytes : Byte
 /-- an encoded stream of finite weights, cut anywhere, never makes the decoder panic -/
 theorem decodeLoop_encoded_take_ne_none (bs : List Block) (h : ∀ b ∈ bs, b.WF)
     (hfin : ∀ b ∈ bs, b.FiniteWeights) (k : Nat) (hk : k ≤ (encBlocks bs).length) (fuel : Nat)
-    (hfuel : k < fuel) (s : Sketch) (aux : DecAux) (hs : s.IsSpec) :
+    (hfuel : k < fuel) (s : Sketch) (aux : DecAux) (hs : s.IsSparse) :
     (∃ j, k = (encBlocks (bs.take j)).length ∧
         decodeLoop fuel s aux ((encBlocks bs).take k) = applyBlocks s aux (bs.take j) ∧
         applyBlocks s aux (bs.take j) ≠ none)
